@@ -549,7 +549,7 @@ def check_input(seed, width, length, prob_robot_break, prob_light_break, prob_lo
 
 
 def prob_to_str(prob):
-    return str(int(prob*100))
+    return str(round(prob*100))
 
 
 def main():
